@@ -15,6 +15,7 @@ func init() {
 type evalCase struct {
 	Min   string          `json:"min"`
 	Full  string          `json:"full"`
+	Tight string          `json:"tight"`
 	Store string          `json:"store"`
 	Undef bool            `json:"undef"`
 	Exp   json.RawMessage `json:"exp"`
@@ -39,8 +40,9 @@ type evalRun struct {
 
 type evalObs struct {
 	evalCase
-	Min1  evalRun `json:"omin"`
-	Full1 evalRun `json:"ofull"`
+	Min1   evalRun `json:"omin"`
+	Full1  evalRun `json:"ofull"`
+	Tight1 evalRun `json:"otight"`
 }
 
 func evalStore(name string) *interp.ExecEnv {
@@ -118,7 +120,7 @@ func evalMode(in *bufio.Scanner, out *json.Encoder) error {
 		if err := json.Unmarshal(in.Bytes(), &c); err != nil {
 			return err
 		}
-		o := evalObs{evalCase: c, Min1: evalText(c.Min, c.Store), Full1: evalText(c.Full, c.Store)}
+		o := evalObs{evalCase: c, Min1: evalText(c.Min, c.Store), Full1: evalText(c.Full, c.Store), Tight1: evalText(c.Tight, c.Store)}
 		if err := out.Encode(o); err != nil {
 			return err
 		}
